@@ -818,6 +818,14 @@ theorem C11_prefix_match_is_not_full :
       ∧ Regex.searchmatch (Regex.Re.ofStr "all".toList) "get_all".toList = true
       ∧ Regex.prefixmatch (Regex.Re.ofStr "all".toList) "get_all".toList = false := by decide
 
+/-- what the two weaker questions ask, for every pattern and name: `match` = some PREFIX of the name is in the language,
+`search` = some INFIX is — a replacement of `fullmatch` by either excludes every name that merely starts with / contains
+an excluded one -/
+theorem C11_prefix_and_search_semantics (r : Regex.Re) (name : Str) :
+    (Regex.prefixmatch r name = true ↔ ∃ p t, name = p ++ t ∧ Regex.Matches r p)
+      ∧ (Regex.searchmatch r name = true ↔ ∃ a p t, name = a ++ p ++ t ∧ Regex.Matches r p) :=
+  ⟨Regex.prefixmatch_iff r name, Regex.searchmatch_iff r name⟩
+
 /-- a literal pattern excludes exactly the callable of that name -/
 theorem C11_literal_pattern_excludes_only_that_name (p name : Str) :
     Regex.fullmatch (Regex.Re.ofStr p) name = true ↔ name = p := by
